@@ -21,6 +21,7 @@ def body(r):
     worlds = [swarm.build_world(r.seed, i, "ns", ["ns"], rr, p_fault=0.5) for i in range(n)]
     swarm.run_swarm(r, PROP, worlds, oracles=ORACLES)
     return r.finish(
+        minimise=swarm.make_minimiser(PROP, (), ORACLES),
         rule=("seeded swarm of complete standard-sampler runs (model, nlive, proposal class, latent prior, "
               "reparameterisation, flow type, uninformed phase, checkpoint trigger, pool all vary); half carry 1-3 "
               "kill-and-resume cycles (kills at likelihood calls / fs events, torn writes) and clock stalls. The "
